@@ -307,6 +307,10 @@ def descr (d1 d2 : Nat) : Descr :=
     withHashes := (d1 &&& 16) ≠ 0
     mask := d1 / 32 }
 
+/-- `Cell.setTopUppedArray` grows a buffer of `n` < 128 bytes to the 128 bytes of a full cell: `make(128-n)` and the
+re-allocation by `append` -/
+def growBytes (n : Nat) : Nat := if n < 128 then 256 - n else 0
+
 open M in
 /-- deserializeCellData after the descriptor bytes -/
 def parseCellBody (D : Descr) (cd : Bytes) (refSize : Nat) : M (RawCell × Bytes) := do
@@ -326,6 +330,8 @@ def parseCellBody (D : Descr) (cd : Bytes) (refSize : Nat) : M (RawCell × Bytes
   alloc szCell
   let arr ← lift (sliceTo cd D.dataBytesSize)
   makeSlice 1 D.dataBytesSize
+  -- Cell.setTopUppedArray grows the buffer to the 128 bytes of a full cell: make(128-len) and the append
+  alloc (growBytes D.dataBytesSize)
   let bits ← lift (setTopUpped arr D.fulfilled)
   if ty = tyPruned ∧ D.dataBytesSize < 2 + LevelMask.hashIndex D.mask * (hashSize + depthSize) then
     fail "not enough data for a pruned branch cell" else
